@@ -119,16 +119,11 @@ def smt2_of(conds):
     return s.to_smt2()
 
 
-def cross_check(batch, timeout_s=300, logic='ALL'):
-    """batch: list of (name, [z3 conds], expected 'sat'|'unsat').
-    Re-decide with /usr/bin/z3 4.8.12 and cvc5; -> dict of stats; raises Inconclusive on disagreement/error."""
-    if not batch:
-        return dict(queries=0, z3_old_s=0.0, cvc5_s=0.0)
+def _run_batch(label, cmd_prefix, batch, logic, timeout_s):
     parts = ['(set-logic %s)' % logic]
     names = []
     for name, conds, exp in batch:
         body = smt2_of(conds)
-        # strip the trailing (check-sat) and wrap in push/pop
         body = re.sub(r'^\(set-info[^\n]*\n', '', body, flags=re.M)
         body = re.sub(r'^\(set-logic[^\n]*\n', '', body, flags=re.M)
         body = body.replace('(check-sat)', '')
@@ -139,30 +134,43 @@ def cross_check(batch, timeout_s=300, logic='ALL'):
         names.append((name, exp))
     text = '\n'.join(parts) + '\n'
     os.makedirs(os.path.join(CACHE, 'smt'), exist_ok=True)
-    path = os.path.join(CACHE, 'smt', 'batch-%d-%d.smt2' % (os.getpid(), int(time.time() * 1000) % 100000000))
+    path = os.path.join(CACHE, 'smt', 'batch-%s-%d-%d.smt2' % (label, os.getpid(), int(time.time() * 1000) % 100000000))
     with open(path, 'w') as f:
         f.write(text)
-    res = {}
-    stats = dict(queries=len(batch))
-    for label, cmd in (('z3_old', ['/usr/bin/z3', '-T:%d' % timeout_s, path]),
-                       ('cvc5', ['cvc5', '--lang', 'smt2', '--incremental', '--tlimit=%d' % (timeout_s * 1000), path])):
-        t = time.time()
-        try:
-            p = subprocess.run(cmd, stdout=subprocess.PIPE, stderr=subprocess.STDOUT, text=True, timeout=timeout_s + 30)
-        except subprocess.TimeoutExpired:
-            raise Inconclusive('%s timed out on cross-check batch %s' % (label, path))
-        stats[label + '_s'] = round(time.time() - t, 3)
-        lines = [l.strip() for l in p.stdout.splitlines() if l.strip()]
-        if any(l.startswith('(error') for l in lines):
-            raise Inconclusive('%s reported an error on %s: %s' % (label, path, [l for l in lines if l.startswith('(error')][:3]))
-        verdicts = [l for l in lines if l in ('sat', 'unsat', 'unknown')]
-        if len(verdicts) != len(batch):
-            raise Inconclusive('%s gave %d verdicts for %d queries (%s): %s' % (label, len(verdicts), len(batch), path, lines[:5]))
-        for (name, exp), v in zip(names, verdicts):
-            if v != exp:
-                raise Inconclusive('solver disagreement on %s: z3-5.1.0 says %s, %s says %s (%s)' % (name, exp, label, v, path))
-        res[label] = verdicts
+    t = time.time()
+    try:
+        p = subprocess.run(cmd_prefix + [path], stdout=subprocess.PIPE, stderr=subprocess.STDOUT, text=True, timeout=timeout_s + 30)
+    except subprocess.TimeoutExpired:
+        raise Inconclusive('%s timed out on cross-check batch %s' % (label, path))
+    dt = time.time() - t
+    lines = [l.strip() for l in p.stdout.splitlines() if l.strip()]
+    if any(l.startswith('(error') for l in lines):
+        raise Inconclusive('%s reported an error on %s: %s' % (label, path, [l for l in lines if l.startswith('(error')][:3]))
+    verdicts = [l for l in lines if l in ('sat', 'unsat', 'unknown')]
+    if len(verdicts) != len(batch):
+        raise Inconclusive('%s gave %d verdicts for %d queries (%s): %s' % (label, len(verdicts), len(batch), path, lines[-3:]))
+    for (name, exp), v in zip(names, verdicts):
+        if v != exp:
+            raise Inconclusive('solver disagreement on %s: z3-5.1.0 says %s, %s says %s (%s)' % (name, exp, label, v, path))
     os.remove(path)
+    return dt
+
+
+def cross_check(batch, timeout_s=300, logic='ALL', tier='thorough', seed=0, quick_z3=150, quick_cvc5=30):
+    """batch: list of (name, [z3 conds], expected 'sat'|'unsat').
+    Re-decide with the independent binaries /usr/bin/z3 4.8.12 and cvc5 1.0.3.  thorough: every obligation with both;
+    quick: a seeded sample (quick_z3 / quick_cvc5 obligations).  Any error line, unknown or disagreement -> Inconclusive."""
+    import random
+    stats = dict(queries=len(batch), z3_old_queries=0, cvc5_queries=0, z3_old_s=0.0, cvc5_s=0.0)
+    if not batch:
+        return stats
+    rnd = random.Random(seed + 7)
+    b1 = batch if (tier == 'thorough' or len(batch) <= quick_z3) else rnd.sample(batch, quick_z3)
+    b2 = batch if (tier == 'thorough' or len(batch) <= quick_cvc5) else rnd.sample(batch, quick_cvc5)
+    stats['z3_old_s'] = round(_run_batch('z3old', ['/usr/bin/z3', '-T:%d' % timeout_s], b1, logic, timeout_s), 2)
+    stats['z3_old_queries'] = len(b1)
+    stats['cvc5_s'] = round(_run_batch('cvc5', ['cvc5', '--lang', 'smt2', '--incremental', '--tlimit=%d' % (timeout_s * 1000)], b2, logic, timeout_s), 2)
+    stats['cvc5_queries'] = len(b2)
     return stats
 
 
